@@ -2,7 +2,7 @@
    flattened observation; [model_obs] runs the model on the same arguments. *)
 From Coq Require Import ZArith List Bool.
 Import ListNotations.
-From Osmo Require Import Base.Obs Base.DecModel C13.Common C13.Sqrt C13.SigFig.
+From Osmo Require Import Base.Obs Base.DecModel C13.Common C13.Sqrt C13.SigFig C13.BinSearch.
 Open Scope Z_scope.
 
 Record case := mkCase {
@@ -13,11 +13,21 @@ Record case := mkCase {
 Definition flat_res (r : result Z) : list Z :=
   match r with Ok v => [0; v] | Err e => [err_code e] end.
 
+Definition mk_tol (hasAdd add hasMul mul dir : Z) : tolerance :=
+  mkTol (if hasAdd =? 0 then None else Some add) (if hasMul =? 0 then None else Some mul) dir.
+
 Definition model_obs (c : case) : list Z :=
   match c_op c, c_args c with
   | 1, [d] => flat_res (monotonic_sqrt d)
   | 2, [d] => flat_res (monotonic_sqrt_bigdec d)
   | 3, [d; s] => flat_res (sigfig_round d s)
+  | 4, [e; a; ha; ad; hm; mu; dir] => flat_res (compare_int (mk_tol ha ad hm mu dir) e a)
+  | 5, [e; a; ha; ad; hm; mu; dir] => flat_res (compare_bigdec (mk_tol ha ad hm mu dir) e a)
+  | 6, [e; a; ha; ad; hm; mu; dir] => flat_res (compare_dec (mk_tol ha ad hm mu dir) e a)
+  | 7, [kind; p1; p2; p3; lo; hi; target; ha; ad; hm; mu; dir; maxit] =>
+      flat_res (binary_search (search_fn_int kind p1 p2 p3) (iters_of maxit) lo hi target (mk_tol ha ad hm mu dir))
+  | 8, [kind; p1; p2; p3; lo; hi; target; ha; ad; hm; mu; dir; maxit] =>
+      flat_res (binary_search_bigdec (search_fn_bigdec kind p1 p2 p3) (iters_of maxit) lo hi target (mk_tol ha ad hm mu dir))
   | _, _ => [-999]
   end.
 
